@@ -91,6 +91,8 @@ def gen_recipe(rng, fmt, tier="quick"):
         while D.make_freq(r["nf"], r["freq"]).max() < 0.13:      # frequency range spans fcut=0.125
             r["nf"] += 1
         r["round_freq"] = 6
+        if rng.random() < 0.25:
+            r["no_winds"] = True       # no wind / depth variables: the writer fills its placeholder
     elif base == "json":
         r["dims"] = rng.choice([[["time", nt], ["site", 2]], [["time", nt]], [], [["time", nt], ["lat", 2], ["lon", 3]], [["site", 3]]])
         if rng.random() < 0.2:
@@ -185,7 +187,7 @@ def shape(plan):
 def expected_dataset(recipe, fmt):
     """(dataset to write, extra writer kwargs, (lon, lat) expected per site or None)."""
     r = dict(recipe)
-    ds = D.make_dataset(r, winds=fmt.startswith("octopus") or bool(r.get("with_winds")))
+    ds = D.make_dataset(r, winds=(fmt.startswith("octopus") and not r.get("no_winds")) or bool(r.get("with_winds")))
     nd = r.get("round_freq")
     if nd is not None:
         ds = ds.assign_coords(freq=np.round(ds["freq"].values, nd).astype(ds["freq"].dtype))
